@@ -783,12 +783,6 @@ func (w *world) plan(op Op, kd *kind) (p planned) {
 	case "append3":
 		return setq(fmt.Sprintf("(append %s %s %s)", A, B, C), cat(a, b, c))
 	case "revappend":
-		if n == 0 {
-			return skip("avoided:revappend-of-empty-list")
-		}
-		if len(b) == 0 && op.K%4 != 1 {
-			return skip("avoided:revappend-with-nil-tail")
-		}
 		return setq(fmt.Sprintf("(revappend %s %s)", A, B), cat(rev(a), b))
 	case "cdr", "rest":
 		if n == 0 {
@@ -874,9 +868,6 @@ func (w *world) plan(op Op, kd *kind) (p planned) {
 		}
 		return setq(fmt.Sprintf("(member %d %s)", it, A), nil)
 	case "mapcar":
-		if n == 0 {
-			return skip("avoided:mapcar-on-empty-list")
-		}
 		if !a.allInts() {
 			// elements are passed on: a new list that shares every element
 			return setq("(mapcar (lambda (x) x) "+A+")", a)
@@ -890,9 +881,6 @@ func (w *world) plan(op Op, kd *kind) (p planned) {
 		}
 		return setq("(mapcar (lambda (x) (+ x 1)) "+A+")", want)
 	case "mapcar2":
-		if n == 0 || len(b) == 0 {
-			return skip("avoided:mapcar-on-empty-list")
-		}
 		var want val
 		if !a.allInts() || !b.allInts() {
 			for i := 0; i < n && i < len(b); i++ {
@@ -1014,12 +1002,6 @@ func (w *world) plan(op Op, kd *kind) (p planned) {
 			if 0 < len(w.v[i].el) {
 				ne = append(ne, i)
 			}
-		}
-		if op.Op == "nreconc" && n == 0 {
-			return skip("avoided:revappend-of-empty-list")
-		}
-		if op.Op == "nreconc" && len(b) == 0 && op.K%4 != 1 {
-			return skip("avoided:revappend-with-nil-tail")
 		}
 		for i := range ne {
 			for j := i + 1; j < len(ne); j++ {
@@ -1457,7 +1439,7 @@ func init() {
 			"block 2 = ordered triples: quick the seed-independent third with (p+2q+3s) mod 3 = 0 (pattern and pool rotate), thorough every triple x 2 patterns x 2 pools; " +
 			"then seeded random histories (any variable as target and as any argument). " +
 			"distinct = distinct program text; non-trivial = at least one operation ran and at least two variables hold non-empty lists at the end. " +
-			"never generated: mapcar and subseq on an empty list (they signal a type-error, C14's concern), circular structures, sub-lists as variable values; nothing else is avoided",
+			"never generated: subseq of an empty list (signals a type-error, C14's concern), circular structures, sub-lists as variable values; nothing else is avoided",
 		N:     nCases,
 		Gen:   gen,
 		Exec:  exec,
